@@ -31,7 +31,7 @@ from mapproxy.featureinfo import combine_docs
 from mapproxy.service.base import Server
 from mapproxy.response import Response
 from mapproxy.exception import RequestError
-from mapproxy.util.coverage import load_limited_to
+from mapproxy.util.coverage import load_limited_to_all
 from mapproxy.util.ext.odict import odict
 
 from mapproxy.template import template_loader, bunch
@@ -173,13 +173,10 @@ class WMTSServer(Server):
             return
         if result['authorized'] == 'partial':
             if result['layers'].get(tile_layer.name, {}).get(key, False) is True:
-                limited_to = result['layers'][tile_layer.name].get('limited_to')
-                if not limited_to:
-                    limited_to = result.get('limited_to')
-                if limited_to:
-                    return load_limited_to(limited_to)
-                else:
-                    return None
+                # the limit of the layer and the limit of the whole request both apply
+                return load_limited_to_all(
+                    result['layers'][tile_layer.name].get('limited_to'),
+                    result.get('limited_to'))
         raise RequestError('forbidden', status=403)
 
     def authorized_tile_layers(self, env):
